@@ -173,13 +173,28 @@ def run(tier, rep):
         raise MachineryError("geom worker failed: %s" % r.stderr[-2500:])
     g = json.load(open(go))
     rep.add(evaluations=g["checked"])
-    rep.cov["detection_lattice"] = {"searches": g["checked"], "required": g["required"], "boundary": g["boundary"], "exhaustive": not quick}
+    rep.cov["detection_lattice"] = {"searches": g["checked"], "required": g["required"], "boundary": g["boundary"], "fly_throughs": g.get("fly_throughs"), "exhaustive": not quick}
     for s in g["samples"][:1]:
         rep.sample({"kind": "lattice detection", **s})
     for v in g["violations"]:
         rep.violation("detect:%s:%s" % (v["mode"], "missed" if v["required"] else "spurious"),
                       "%s search %s the pair in lattice configuration (x1,y1,z1,x2,y2,z2,vx,vy,vz,r1,r2,Lx,Ly,Lz,ghost_z)=%s (periodic box)"
                       % (v["mode"], "misses" if v["required"] else "reports (though it neither overlaps nor touches)", v["cfg"]), v)
+    # sampled: polydisperse crowds, insertion order of the radii (the tree search's opening margin is the second largest radius)
+    co = os.path.join(sc, "cluster_out.json")
+    r = common.run_worker(os.path.join(HERE, "w_c13.py"), ["cluster", co, str(common.seed()), "12" if quick else "150"], timeout=3000)
+    if r.returncode != 0:
+        if r.returncode < 0:
+            rep.violation("crash:cluster", "real code crashed (signal %d) in a collision search over a polydisperse crowd" % -r.returncode, {"stderr": r.stderr[-1500:]})
+            return
+        raise MachineryError("cluster worker failed: %s" % r.stderr[-2500:])
+    cl = json.load(open(co))
+    rep.add(evaluations=cl["trials"])
+    rep.cov["polydisperse_crowds"] = {"searches": cl["trials"], "planted_pairs": cl["pairs"]}
+    for v in cl["violations"]:
+        rep.violation("crowd:%s:%s:%s" % (v["mode"], v["order"], "missed" if v["missed"] else "spurious"),
+                      "%s search over a polydisperse crowd inserted in %s radius order: misses planted pairs %s (radii %s), reports unplanted pairs %s (seed %s, trial %s)"
+                      % (v["mode"], v["order"], v["missed"], v["radii"], v["spurious"], v["seed"], v["trial"]), v)
     # E3 resolve-loop traces
     ff, fm = os.path.join(sc, "free.ndjson"), os.path.join(sc, "merge.ndjson")
     env = {common.GUARD: "1", "REBOUND_VERIF_TRACE": os.path.join(sc, "hook.txt")}
